@@ -37,8 +37,8 @@ def clenshaw_small(L):
 
 
 @harness('C10', 'bounded/fast-sums-and-lstsq', kind='bounded',
-         variants=['jacobi_sum_clenshaw', 'clenshaw_qbfs', 'compute_z_Qcon', 'compute_z_Q2d', 'Q2d_nm_c_to_a_b', 'lstsq', 'fit_plane'],
-         fuc=['prysm.polynomials.jacobi.jacobi_sum_clenshaw', 'prysm.polynomials.qpoly.clenshaw_qbfs', 'prysm.polynomials.qpoly.compute_z_zprime_Qcon',
+         variants=['sum_of_2d_modes', 'jacobi_sum_clenshaw', 'clenshaw_qbfs', 'compute_z_Qcon', 'compute_z_Q2d', 'Q2d_nm_c_to_a_b', 'lstsq', 'fit_plane'],
+         fuc=['prysm.polynomials.sum_of_2d_modes', 'prysm.polynomials.jacobi.jacobi_sum_clenshaw', 'prysm.polynomials.qpoly.clenshaw_qbfs', 'prysm.polynomials.qpoly.compute_z_zprime_Qcon',
               'prysm.polynomials.qpoly.compute_z_zprime_Q2d', 'prysm.polynomials.qpoly.Q2d_nm_c_to_a_b', 'prysm.polynomials.lstsq',
               'prysm.interferogram.fit_plane'])
 def bounded_sums(which):
@@ -51,7 +51,21 @@ def bounded_sums(which):
     tol = dict(rtol=1e-8, atol=1e-9)
     u = vary_layout(rng, rng.uniform(0.05, 0.95, (3, 4)))      # coordinates in any memory layout
     t = vary_layout(rng, rng.uniform(-3, 3, (3, 4)))
-    if which == 'jacobi_sum_clenshaw':
+    if which == 'sum_of_2d_modes':
+        # coefficient vectors of every magnitude (a surface in metres has weights ~1e-9; mixed magnitudes; exact zeros), compared
+        # relative to the size of the terms: the contraction is linear, so no weight is "too small to count"
+        K = int(rng.integers(1, 8))
+        shp = (int(rng.integers(1, 6)),) if rng.random() < 0.3 else (int(rng.integers(1, 6)), int(rng.integers(1, 6)))
+        modes = rng.standard_normal((K,) + shp)
+        w = rng.standard_normal(K) * 10.0 ** rng.integers(-14, 4, K if rng.random() < 0.5 else 1)
+        if rng.random() < 0.3:
+            w[rng.integers(0, K)] = 0.0
+        want = sum(w[k] * modes[k] for k in range(K))
+        got = get(P + 'sum_of_2d_modes')(modes, w)
+        scale = sum(abs(w[k] * modes[k]) for k in range(K))
+        check('shape', np.shape(got) == shp)
+        check('explicit-sum-relative-to-term-size', bool(np.all(abs(got - want) <= 1e-12 * scale)))
+    elif which == 'jacobi_sum_clenshaw':
         a, b = float(rng.uniform(-0.9, 3)), float(rng.uniform(-0.9, 3))
         L = int(rng.integers(1, 11))
         s = rng.standard_normal(L)
@@ -84,8 +98,8 @@ def bounded_sums(which):
         check('coefficients-untouched', bool(np.array_equal(cs, keep)))
     elif which == 'compute_z_Q2d':
         cm0 = list(rng.standard_normal(int(rng.integers(0, 4))))
-        M = int(rng.integers(0, 4))
-        style = rng.choice(['both', 'cos-only', 'sin-only', 'ragged'])
+        M = int(rng.integers(0, 6))
+        style = rng.choice(['both', 'cos-only', 'sin-only', 'ragged', 'gaps'])
         ams, bms = [], []
         for _ in range(M):
             la, lb = int(rng.integers(1, 5)), int(rng.integers(1, 5))
@@ -95,6 +109,8 @@ def bounded_sums(which):
                 la = 0
             elif style == 'ragged' and rng.random() < 0.5:
                 la, lb = (0, lb) if rng.random() < 0.5 else (la, 0)
+            elif style == 'gaps' and rng.random() < 0.5:
+                la, lb = 0, 0          # an azimuthal order with no terms at all below a populated one
             ams.append(list(rng.standard_normal(la)))
             bms.append(list(rng.standard_normal(lb)))
         if rng.random() < 0.5:
